@@ -599,6 +599,12 @@ func (x *dbx) compareRange(got map[string][]qSample, mint, maxt int64, chunked b
 		sort.Slice(ts, func(i, j int) bool { return ts[i] < ts[j] })
 		for _, t := range ts {
 			if t >= mint && t <= maxt && !have[t] {
+				if ms.ooo[t] && ms.inEarlierDelete(t) {
+					if x.soft != nil {
+						x.soft("ooo-sample-appended-after-delete-hidden", fmt.Sprintf("%s [%d,%d] after %s: series %s lacks out-of-order sample t=%d that was committed AFTER an earlier Delete covering t (the head tombstone of the old Delete hides it)", what, mint, maxt, x.lastOp, sk, t))
+					}
+					continue
+				}
 				return vx.Failf("missing-sample/"+qual(sk, t), "%s [%d,%d]: series %s lacks committed sample t=%d (%v). got %v; model: %s", what, mint, maxt, sk, t, ms.samples[t], got[sk], x.m.key())
 			}
 		}
